@@ -44,29 +44,35 @@ def test_x(seed, which, d=1):
 
 
 class ExactModel(gpytorch.models.ExactGP):
-    def __init__(self, X, y, fam, seed=0):
+    def __init__(self, X, y, fam, seed=0, batch_shape=(), noise=None):
         d = X.shape[-1]
+        bs = torch.Size(batch_shape)
         self.fam = fam
-        if fam == "fixednoise":
+        n = X.shape[-2]
+        if fam in ("fixednoise", "fixednoise_learn"):
+            if noise is None:
+                noise = 0.05 + 0.1 * torch.arange(n, dtype=F64) / n
             lik = gpytorch.likelihoods.FixedNoiseGaussianLikelihood(
-                noise=0.05 + 0.1 * torch.arange(X.shape[-2], dtype=F64) / X.shape[-2], learn_additional_noise=False)
-        elif fam == "multitask":
-            lik = gpytorch.likelihoods.MultitaskGaussianLikelihood(num_tasks=2, rank=1)
+                noise=noise, learn_additional_noise=(fam == "fixednoise_learn"), batch_shape=bs)
+        elif fam in ("multitask", "multitask_r0", "multitask_notask"):
+            lik = gpytorch.likelihoods.MultitaskGaussianLikelihood(
+                num_tasks=2, rank={"multitask": 1, "multitask_r0": 0, "multitask_notask": 0}[fam],
+                has_task_noise=(fam != "multitask_notask"), batch_shape=bs)
         else:
-            lik = gpytorch.likelihoods.GaussianLikelihood()
+            lik = gpytorch.likelihoods.GaussianLikelihood(batch_shape=bs)
         super().__init__(X, y, lik)
-        self.mean_module = gpytorch.means.ConstantMean()
-        base = K.ScaleKernel(K.RBFKernel())
-        if fam in ("exact", "fixednoise"):
+        self.mean_module = gpytorch.means.ConstantMean(batch_shape=bs)
+        base = K.ScaleKernel(K.RBFKernel(batch_shape=bs), batch_shape=bs)
+        if fam in ("exact", "fixednoise", "fixednoise_learn"):
             self.covar_module = base
         elif fam == "kiss":
             self.covar_module = K.ScaleKernel(K.GridInterpolationKernel(K.RBFKernel(), grid_size=10, grid_bounds=[(-0.6, 1.6)] * d))
         elif fam == "sgpr":
             g = util.gen(seed, "Z")
             self.covar_module = K.InducingPointKernel(base, inducing_points=util.rand(g, 3, d), likelihood=lik)
-        elif fam == "multitask":
-            self.mean_module = gpytorch.means.MultitaskMean(gpytorch.means.ConstantMean(), num_tasks=2)
-            self.covar_module = K.MultitaskKernel(K.RBFKernel(), num_tasks=2, rank=1)
+        elif fam in ("multitask", "multitask_r0", "multitask_notask"):
+            self.mean_module = gpytorch.means.MultitaskMean(gpytorch.means.ConstantMean(batch_shape=bs), num_tasks=2)
+            self.covar_module = K.MultitaskKernel(K.RBFKernel(batch_shape=bs), num_tasks=2, rank=1, batch_shape=bs)
         elif fam == "rff":
             torch.manual_seed(util.seed_for(seed, "rff"))
             self.covar_module = K.ScaleKernel(K.RFFKernel(num_samples=6, num_dims=d))
@@ -74,18 +80,25 @@ class ExactModel(gpytorch.models.ExactGP):
             grid = [torch.linspace(0, 1, 4, dtype=F64)]
             self.covar_module = K.ScaleKernel(K.GridKernel(K.RBFKernel(), grid=grid))
         elif fam == "matern_ard":
-            self.covar_module = K.ScaleKernel(K.MaternKernel(nu=1.5, ard_num_dims=d))
+            self.covar_module = K.ScaleKernel(K.MaternKernel(nu=1.5, ard_num_dims=d, batch_shape=bs), batch_shape=bs)
+        elif fam == "matern05":
+            self.covar_module = K.ScaleKernel(K.MaternKernel(nu=0.5, batch_shape=bs), batch_shape=bs)
+        elif fam == "matern25_ard":
+            self.covar_module = K.ScaleKernel(K.MaternKernel(nu=2.5, ard_num_dims=d, batch_shape=bs), batch_shape=bs)
         elif fam == "sumprod":
-            self.covar_module = K.ScaleKernel(K.RBFKernel()) + K.LinearKernel() * K.PeriodicKernel()
+            self.covar_module = K.ScaleKernel(K.RBFKernel(batch_shape=bs), batch_shape=bs) + K.LinearKernel(batch_shape=bs) * K.PeriodicKernel(batch_shape=bs)
         elif fam == "linearmean":
-            self.mean_module = gpytorch.means.LinearMean(d)
+            self.mean_module = gpytorch.means.LinearMean(d, batch_shape=bs)
+            self.covar_module = base
+        elif fam == "zeromean":
+            self.mean_module = gpytorch.means.ZeroMean(batch_shape=bs)
             self.covar_module = base
         else:
             raise AssertionError(fam)
 
     def forward(self, x):
         m, c = self.mean_module(x), self.covar_module(x)
-        if self.fam == "multitask":
+        if self.fam.startswith("multitask"):
             return MultitaskMultivariateNormal(m, c)
         return MultivariateNormal(m, c)
 
@@ -134,11 +147,20 @@ def is_var(fam):
     return fam in VARIATIONAL
 
 
-def make(fam, seed, dat=None):
+def make(fam, seed, dat=None, batch_shape=()):
     if is_var(fam):
         return VarModel(fam, seed)
     X, y = dat
-    return ExactModel(X, y, fam, seed)
+    return ExactModel(X, y, fam, seed, batch_shape=batch_shape)
+
+
+def perturb_(m, seed, key):
+    """in place: generic distinct raw-parameter values (every entry different, so batch cross-talk cannot cancel)"""
+    g = util.gen(seed, f"perturb|{key}")
+    with torch.no_grad():
+        for k, p in sorted(m.named_parameters()):
+            p.add_(0.4 * util.randn(g, *p.shape) if p.dim() > 0 else 0.4 * util.randn(g, 1)[0])
+    return m
 
 
 def perturbed_state(fam, seed, j, dat=None):
